@@ -86,13 +86,15 @@ pub fn gen_call(rng: &mut Rng, key: (bool, u32), refuse: bool, total: Option<usi
             8 => nums = vec![dest, rng.below(3) as u32, b(rng), b(rng)],
             9 => {
                 nums = vec![dest];
-                let n = if refuse { 8 + rng.below(5) as usize } else { rng.below(8) as usize };
+                let n = if refuse {
+                    if rng.chance(1, 2) { 8 + rng.below(5) as usize } else { rng.pick(&[8usize, 9, 31, 32, 63, 64, 65, 71, 72, 127, 128, 135, 192, 199, 255, 256, 257, 300]) }
+                } else { rng.below(8) as usize };
                 lists = (0..n).map(|_| rng.bytes(4)).collect();
             }
             15 => nums = vec![dest, b(rng), rng.pick(&[0u32, 5, 6, 0x7E, 0x7F, 0xFF])],
             16 => {
                 nums = vec![dest, b(rng)];
-                lists = vec![rng.bytes(16)];
+                lists = vec![rng.uuid()];
             }
             20 => {
                 let fmt = if refuse { 2 + rng.below(254) as u32 } else { rng.below(2) as u32 };
@@ -121,7 +123,7 @@ pub fn gen_call(rng: &mut Rng, key: (bool, u32), refuse: bool, total: Option<usi
             2 => nums = vec![cc, dest, rng.below(2) as u32, rng.below(4) as u32, rng.below(2) as u32],
             3 => {
                 nums = vec![cc, dest];
-                lists = vec![rng.bytes(16)];
+                lists = vec![rng.uuid()];
             }
             4 => nums = vec![cc, dest],
             5 => {
